@@ -1011,6 +1011,9 @@ func (fx *FnExec) execUnOp(st *State, in *ssa.UnOp) {
 		fx.checkAccess(st, loc, false, in.Pos())
 		leaves := e.loadLoc(st, loc)
 		v := &Val{L: leaves}
+		if loc.Kind == LField {
+			v.Origin = "field:" + typeKey(loc.S) + "." + loc.Path
+		}
 		// function values: remember origin for dyn contracts
 		if _, ok := in.Type().Underlying().(*types.Signature); ok {
 			switch loc.Kind {
